@@ -408,7 +408,7 @@ fn cmd_batch(args: &[String], sweep: bool) -> i32 {
         (arg(args, "--count").map(|s| s.parse().expect("--count")).unwrap_or(1000), Vec::new())
     };
     let progress = arg(args, "--progress").map(|p| std::fs::OpenOptions::new().create(true).write(true).truncate(true).open(p).expect("progress file"));
-    let cfg = PoolCfg { workers, stack_bytes: 8 << 20, retire_after: 100_000, chunk: 64, progress };
+    let cfg = PoolCfg { workers, stack_bytes: 8 << 20, retire_after: 100_000, chunk: 64, progress, beats: None, epoch: std::time::Instant::now() };
     let stop = AtomicBool::new(false);
     let nfail = Mutex::new(0usize);
     let t0 = std::time::Instant::now();
